@@ -17,41 +17,34 @@ Theorem C07_chunk_independent_generic :
     feed_all ctx ev begin_body finish_body step_nobody e1 e2 e3 (init c) cs =
     feed_all ctx ev begin_body finish_body step_nobody e1 e2 e3 (init c) cs'.
 Proof. exact chunk_independent. Qed.
-Print Assumptions C07_chunk_independent_generic.
 
 (* ... in particular for the transcription of banana.py's discardCount / inOpen / unslicer-stack logic *)
 Theorem C07_chunk_independent : forall c cs cs', concat cs = concat cs' -> bfeed_all (init c) cs = bfeed_all (init c) cs'.
 Proof. exact banana_chunk_independent. Qed.
-Print Assumptions C07_chunk_independent.
 
 (* incremental decoding agrees with the one-pass decoding of the whole byte string *)
 Theorem C07_incremental_is_whole : forall c cs, bfeed_all (init c) cs = brun c (concat cs).
 Proof. exact banana_feed_is_run. Qed.
-Print Assumptions C07_incremental_is_whole.
 
 (* "... close the connection and ignore all further input" *)
 Theorem C07_abandon_is_final : forall s cs, r_dead s = true -> bfeed_all s cs = (s, []).
 Proof. exact banana_abandon_is_final. Qed.
-Print Assumptions C07_abandon_is_final.
 
 (* "... agrees with the Banana token specification": every well-formed token stream the sender can
    emit (translated sendToken / int2b128) is scanned back to exactly the same tokens *)
 Theorem C07_token_spec : forall ts bs, forallb wf_token ts = true -> encode_stream ts = Ok bs -> decode bs = (ts, EndClean).
 Proof. exact stream_roundtrip. Qed.
-Print Assumptions C07_token_spec.
 
 (* a header of 65 bytes without a type byte ends the connection, whatever follows *)
 Theorem C07_header_cap : forall c b m, List.length b = 65%nat -> Forall (fun x => x < 128) b ->
   tok_step bctx event begin_body finish_body step_nobody (fatal 0) (fatal 0) (fun _ => [ELose]) c (b ++ m) = TDead bctx event (fatal 0).
 Proof. exact (header_cap_any bctx event begin_body finish_body step_nobody (fatal 0) (fatal 0) (fun _ => [ELose])). Qed.
-Print Assumptions C07_header_cap.
 
 (* a violation never pops the root unslicer, and counts exactly the frames it pops for discarding *)
 Theorem C07_violation_keeps_root : forall st, root_at_bottom st -> forall d ic,
   exists st' d' es, hv_loop st d ic = Some (st', d', es) /\ root_at_bottom st' /\ d <= d' /\
     d' - d = Z.of_nat (List.length st - List.length st') - (if ic then (if (List.length st' <? List.length st)%nat then 1 else 0) else 0).
 Proof. exact hv_loop_root. Qed.
-Print Assumptions C07_violation_keeps_root.
 
 (* "A schema violation discards exactly the offending top-level object and decoding of the following
    objects is unaffected": the receiver's depth bookkeeping (discardCount + live unslicers + pending
@@ -60,13 +53,11 @@ Print Assumptions C07_violation_keeps_root.
 Theorem C07_depth_exact : forall ts c c' es, wfc c -> apply_all c ts = Ok' c' es ->
   wfc c' /\ rootmode c' = rootmode c /\ vocab c' = vocab c /\ open_depth c' = open_depth c + delta_sum ts.
 Proof. exact apply_all_depth. Qed.
-Print Assumptions C07_depth_exact.
 
 (* ... hence after ANY balanced token sequence that did not end the connection the receiver is back at
    top level: nothing is being discarded, only the root unslicer is on the stack, no index phase is open *)
 Theorem C07_resync : forall c ts c' es, at_top c -> wfc c -> delta_sum ts = 0 -> apply_all c ts = Ok' c' es -> at_top c'.
 Proof. exact resync. Qed.
-Print Assumptions C07_resync.
 
 (* the token-level statements above are about the byte-level receiver: a complete token in the buffer is
    processed by exactly tok_apply *)
@@ -80,17 +71,14 @@ Theorem C07_bytes_to_tokens : forall c b ds ty rest,
   | Fatal' es => TDead bctx event es
   end.
 Proof. exact tok_step_complete. Qed.
-Print Assumptions C07_bytes_to_tokens.
 
 (* a PING anywhere is answered by exactly one PONG carrying the same number and changes nothing else *)
 Theorem C07_ping_transparent : forall c n, exists c', tok_apply c tok_PING n [] = Ok' c' [EPong n] \/
                                                     (exists es, tok_apply c tok_PING n [] = Fatal' es).
 Proof. exact ping_transparent. Qed.
-Print Assumptions C07_ping_transparent.
 (* ... in fact it never fails and leaves the receiver's state untouched *)
 Theorem C07_ping_exact : forall c n, tok_apply c tok_PING n [] = Ok' c [EPong n].
 Proof. exact banana_ping_exact. Qed.
-Print Assumptions C07_ping_exact.
 
 (* "A schema violation discards exactly the offending top-level object": while the rest of a rejected object is being discarded
    (discardCount > 0) every token up to and including the CLOSE that brings discardCount back to 0 changes nothing but discardCount:
@@ -104,8 +92,6 @@ Theorem C07_rejected_object_ends_at_top_policy : forall ts c c' es,
   stack c = [root_frame] -> inOpen c = false -> keeps_discarding (discard c) ts -> discard c + delta_sum ts = 0 ->
   apply_all c ts = Ok' c' es -> at_top c' /\ pongs_only es /\ vocab c' = vocab c.
 Proof. exact banana_rejected_object_ends_at_top. Qed.
-Print Assumptions C07_discarding_is_silent_policy.
-Print Assumptions C07_rejected_object_ends_at_top_policy.
 
 (* non-vacuity: in the stream of C07_resync_example the child violation happens at the first INT; the tokens INT 6, CLOSE 0 that follow
    are discarded silently *)
@@ -142,8 +128,6 @@ Theorem C07_open_number_is_its_ordinal : forall pre hdr c c1 es1 c2 es2,
   inbObj c2 = objctr c + count_opens pre.
 Proof. exact open_number_counts_every_open. Qed.
 
-Print Assumptions C07_counter_counts_every_open.
-Print Assumptions C07_open_number_is_its_ordinal.
 
 (* non-vacuity: the OPEN that follows a discarded object containing two nested OPENs is object number 3 *)
 Example C07_numbering_example :
@@ -250,17 +234,6 @@ Theorem C07_any_unslicers_violation_keeps_root : forall st, ubottom fr u_report 
 Proof. exact (uhv_loop_bottom fr u_finish u_report). Qed.
 End AnyUnslicers.
 
-Print Assumptions C07_any_unslicers_chunk_independent.
-Print Assumptions C07_no_exception_escapes.
-Print Assumptions C07_handler_catches_everything.
-Print Assumptions C07_exception_sends_error_and_closes.
-Print Assumptions C07_any_unslicers_depth_exact.
-Print Assumptions C07_any_unslicers_resync.
-Print Assumptions C07_discarding_is_silent.
-Print Assumptions C07_any_unslicers_violation_keeps_root.
-Print Assumptions C07_rejected_object_ends_at_top.
-Print Assumptions C07_following_objects_unaffected.
-Print Assumptions C07_any_unslicers_ping_exact.
 
 (* ... for the STANDARD unslicers (RootUnslicer, list, tuple, dict, set, immutable-set, unicode, boolean, none) under any
    constraint tree the hypotheses hold, so the three sentences are theorems about them *)
@@ -276,9 +249,6 @@ Theorem C07_standard_unslicers_chunk_independent : forall mi lg c cs cs', concat
   sfeed_all mi lg (init c) cs = sfeed_all mi lg (init c) cs'.
 Proof. intros mi lg. exact (unsl_chunk_independent sfr std_check (std_opener mi lg) std_do_open std_start std_child std_close std_finish std_report). Qed.
 
-Print Assumptions C07_standard_unslicers_resync.
-Print Assumptions C07_standard_unslicers_no_escape.
-Print Assumptions C07_standard_unslicers_chunk_independent.
 
 (* non-vacuity: under ListOf(ByteString(maxLength=2)) a list whose second item is too long is rejected when the header of that
    item arrives, the rest of the list is discarded, the root reports ONE violation, and the receiver is back at top level *)
@@ -308,9 +278,73 @@ Theorem C07_send_error_fits : forall n, 0 <= n -> se_len n <= SIZE_LIMIT /\ (n <
 Proof. exact tie_send_error_len. Qed.
 Theorem C07_handler_order : dr_handler_ops = [HSendError; HSetAbandoned; HReport] /\ se_ops = [SeHeader; SeType; SeBody; SeLose].
 Proof. split; [exact tie_handler_ops|exact tie_send_error_order]. Qed.
-Print Assumptions C07_tie_body_clauses.
-Print Assumptions C07_tie_exempt.
-Print Assumptions C07_tie_header_window.
-Print Assumptions C07_tie_error_oversize.
-Print Assumptions C07_send_error_fits.
-Print Assumptions C07_handler_order.
+
+(* one Print Assumptions per group: the axioms of a tuple are the union of the axioms of its components *)
+Definition C07_group_1 := (@C07_chunk_independent_generic, @C07_chunk_independent, @C07_incremental_is_whole, @C07_abandon_is_final, @C07_token_spec, @C07_header_cap, @C07_violation_keeps_root, @C07_depth_exact, @C07_resync, @C07_bytes_to_tokens, @C07_ping_transparent, @C07_ping_exact).
+Print Assumptions C07_group_1.
+(* one Print Assumptions per group: the axioms of a tuple are the union of the axioms of its components *)
+Definition C07_group_2 := (@C07_discarding_is_silent_policy, @C07_rejected_object_ends_at_top_policy, @C07_counter_counts_every_open, @C07_open_number_is_its_ordinal, @C07_any_unslicers_chunk_independent, @C07_no_exception_escapes, @C07_handler_catches_everything, @C07_exception_sends_error_and_closes, @C07_any_unslicers_depth_exact, @C07_any_unslicers_resync, @C07_discarding_is_silent, @C07_any_unslicers_violation_keeps_root).
+Print Assumptions C07_group_2.
+(* one Print Assumptions per group: the axioms of a tuple are the union of the axioms of its components *)
+Definition C07_group_3 := (@C07_rejected_object_ends_at_top, @C07_following_objects_unaffected, @C07_any_unslicers_ping_exact, @C07_standard_unslicers_resync, @C07_standard_unslicers_no_escape, @C07_standard_unslicers_chunk_independent, @C07_tie_body_clauses, @C07_tie_exempt, @C07_tie_header_window, @C07_tie_error_oversize, @C07_send_error_fits, @C07_handler_order).
+Print Assumptions C07_group_3.
+
+(* ======================================================================================================================
+   AFTER THE TWO REPAIRS of banana.py (a CLOSE / an ABORT in the index phase of an OPEN sequence; fixes 5f9075a, 1fd02a3; the
+   clauses are translated: gen/RecvGen.hd_close_fatal, hd_abort_in_index):
+   "A schema violation discards exactly the offending top-level object" as a statement about EVENTS, for EVERY unslicer
+   semantics.  Root events are deliveries (UDeliver) and reported violations (UViolation); hypotheses R1-R6 say which unslicer
+   is the root (it delivers, its reportViolation emits UViolation, nobody else emits either, children are not roots), the other
+   two are the behavioural hypotheses of the depth theorems.  `inside 1 body`: the tokens after the OPEN keep the nesting depth
+   positive until the last one brings it back to zero. *)
+Require Import Verif.lib.UnslOnce.
+
+Theorem C07_exactly_one_root_event :
+  forall (fr : Type) u_check u_opener_check u_do_open u_start u_child u_close u_finish u_report (is_root : fr -> bool),
+  (forall f, is_root f = true -> u_report f = Some [UViolation]) ->
+  (forall f es, is_root f = false -> u_report f = Some es -> nroot es = 0) ->
+  (forall f v, is_root f = true -> exists f', u_child f v = ([UDeliver v], OOk f') /\ is_root f' = true) ->
+  (forall f v es r, is_root f = false -> u_child f v = (es, r) -> nroot es = 0 /\ (forall f', r = OOk f' -> is_root f' = false)) ->
+  (forall st ot ch, u_do_open st ot = OOk (Some ch) -> is_root ch = false) ->
+  (forall ch n ch', is_root ch = false -> u_start ch n = OOk ch' -> is_root ch' = false) ->
+  (forall f v es f', u_child f v = (es, OOk f') -> absorbs fr u_report f -> absorbs fr u_report f') ->
+  (forall f, (u_close f = OViol \/ (exists v, u_close f = OOk v /\ u_finish f = OViol)) -> u_report f = None) ->
+  forall c h b body, uat_top fr c -> RI fr is_root c -> inside 1 body ->
+  match uapply_all fr u_check u_opener_check u_do_open u_start u_child u_close u_finish u_report c ((tok_OPEN, h, b) :: body) with
+  | UFatal _ _ => True                                           (* the connection is abandoned *)
+  | UOk _ c' es => nroot es = 1 /\ uat_top fr c' /\ RI fr is_root c'  (* exactly one root event, and back at top level *)
+  end.
+Proof.
+  intros fr u_check u_opener_check u_do_open u_start u_child u_close u_finish u_report is_root R1 R2 R3 R4 R5 R6 HC HL c h b body T I IN.
+  exact (unsl_exactly_one fr u_check u_opener_check u_do_open u_start u_child u_close u_finish u_report is_root R1 R2 R3 R4 R5 R6 HC HL
+           c h b body tie_abort_in_index_phase T I IN).
+Qed.
+
+(* one root event = the object was delivered and nothing was reported, or it was reported and nothing was delivered *)
+Theorem C07_one_root_event_means : forall es, nroot es = 1 ->
+  (ndeliver es = 1 /\ nviolation es = 0) \/ (ndeliver es = 0 /\ nviolation es = 1).
+Proof. exact one_root_event. Qed.
+
+(* the standard unslicers under any constraint tree satisfy all eight hypotheses *)
+Theorem C07_standard_unslicers_exactly_one : forall mi lg c h b body, uat_top sfr c -> std_RI c -> inside 1 body ->
+  match sapply_all mi lg c ((tok_OPEN, h, b) :: body) with
+  | UFatal _ _ => True
+  | UOk _ c' es => nroot es = 1 /\ uat_top sfr c' /\ std_RI c'
+  end.
+Proof. intros mi lg c h b body. exact (std_exactly_one mi lg c h b body tie_abort_in_index_phase). Qed.
+
+(* the two translated clauses are the ones the policy model lib/BananaRecv.v transcribes *)
+Theorem C07_tie_close_in_index_phase : forall io d, hd_close_fatal io d = io && (d =? 0).
+Proof. exact tie_close_in_index_phase. Qed.
+Theorem C07_tie_abort_in_index_phase : hd_abort_in_index = true.
+Proof. exact tie_abort_in_index_phase. Qed.
+
+(* non-vacuity: the initial receiver satisfies the invariant, and the tokens of C07_standard_resync_example are one top-level sequence *)
+Example C07_exactly_one_example :
+  uat_top sfr (sctx0 (Some ex_listof)) /\ std_RI (sctx0 (Some ex_listof)) /\
+  inside 1 [(tok_STRING, 4, [108; 105; 115; 116]); (tok_STRING, 1, [97]); (tok_STRING, 3, [97; 98; 99]); (tok_INT, 5, []); (tok_CLOSE, 0, [])].
+Proof. split; [repeat split|]. split; [apply sctx0_RI|]. cbn. repeat split; reflexivity. Qed.
+
+Definition C07_group_once := (@C07_exactly_one_root_event, @C07_one_root_event_means, @C07_standard_unslicers_exactly_one,
+                              @C07_tie_close_in_index_phase, @C07_tie_abort_in_index_phase).
+Print Assumptions C07_group_once.
